@@ -13,9 +13,9 @@ var rangePool = []string{
 
 // addresses inside and outside the pool's ranges, canonical and not
 var addrPool = []string{
-	"10.1.2.3", "10.0.0.1", "192.168.1.1", "172.16.5.5", "127.0.0.1", "203.0.113.7", "198.51.100.9",
+	"10.1.2.3", "10.0.0.1", "192.168.1.1", "172.16.5.5", "127.0.0.1", "127.0.0.2", "203.0.113.7", "198.51.100.9",
 	"8.8.8.8", "1.2.3.4", "203.0.113.8", "100.64.0.1",
-	"::1", "fd00::1", "2001:db8::5", "2001:DB8:0:0::5", "2001:db8:1::9", "fe80::1", "::ffff:10.1.2.3",
+	"::1", "::2", "fd00::1", "2001:db8::5", "2001:DB8:0:0::5", "2001:db8:1::9", "fe80::1", "::ffff:10.1.2.3",
 	"0:0:0:0:0:0:0:1", "2606:4700::1111", "2a00::1", "::",
 }
 
